@@ -49,7 +49,7 @@ def run_demo(wt, d, plan, tgt):
     if 'rdp_rs_verif' in readme: env['RUSTFLAGS'] = '--cfg rdp_rs_verif'
     feat = ' --features mstsc-rs' if 'mstsc-rs' in readme and '--features' in readme else ''
     if kind == 'runsh':
-        return sh('sh %s/demo/run.sh %s' % (d, wt), cwd=wt, env=env)
+        return sh('bash %s/demo/run.sh %s' % (d, wt), cwd=wt, env=env, timeout=900)
     if kind == 'tests':
         os.makedirs(wt + '/tests', exist_ok=True)
         names = []
@@ -102,6 +102,7 @@ def confirm(args):
     plan = demo_plan(d)
     res['demo_kind'] = plan[0]
     rc, out = run_demo(wt, d, plan, tgt)
+    res['demo_with_rc'] = rc
     res['demo_with_change_fails'] = rc != 0 and ('test result: FAILED' in out or 'FAIL' in out or 'panicked' in out or 'failed' in out)
     res['demo_with'] = out.strip()[-300:]
     reset()
@@ -109,8 +110,17 @@ def confirm(args):
     res['demo_without_change_passes'] = rc == 0
     res['demo_without'] = out.strip()[-300:]
     reset()
-    res['confirmed'] = all(res.get(x) for x in ('applies', 'builds', 'tests_pass', 'demo_with_change_fails', 'demo_without_change_passes'))
-    print(sid, 'CONFIRMED' if res['confirmed'] else 'NOT-CONFIRMED', {x: res.get(x) for x in ('builds', 'tests_pass', 'demo_kind', 'demo_with_change_fails', 'demo_without_change_passes')}, flush=True)
+    kind = 'breaking'
+    try: kind = json.load(open(d + '/meta.json')).get('kind', 'breaking')
+    except Exception: pass
+    res['kind'] = kind
+    if kind == 'refactor':
+        # a harmless rewrite: its demonstration passes both ways
+        res['demo_with_change_passes'] = res.get('demo_with_rc') == 0
+        res['confirmed'] = all(res.get(x) for x in ('applies', 'builds', 'tests_pass', 'demo_with_change_passes', 'demo_without_change_passes'))
+    else:
+        res['confirmed'] = all(res.get(x) for x in ('applies', 'builds', 'tests_pass', 'demo_with_change_fails', 'demo_without_change_passes'))
+    print(sid, 'CONFIRMED' if res['confirmed'] else 'NOT-CONFIRMED', {x: res.get(x) for x in ('kind', 'builds', 'tests_pass', 'demo_kind', 'demo_with_change_fails', 'demo_without_change_passes')}, flush=True)
     return res
 
 
